@@ -32,6 +32,7 @@ class ReloadModel:
         self.hidden_dirs = set()
         self.apps = {"app1": 1, "app2": 1, "app11": 1}  # configured apps -> config value
         self.loaded = {}  # ctx -> dict(gen, mtime, appcfg, imports)
+        self.options_changed = False
 
     # -- file system view ------------------------------------------------------------------------------
     def visible(self, path):
@@ -101,6 +102,10 @@ class ReloadModel:
     def reload(self, global_ctx=None):
         """Returns (discarded contexts, load events)."""
         auto = self.autoload_now()
+        if self.options_changed:
+            # a changed global option (allow_all_imports, hass_is_global, legacy_decorators) reloads everything, once
+            self.options_changed = False
+            global_ctx = "*"
         if global_ctx == "*":
             changed = set(self.loaded)
         elif global_ctx is not None:
